@@ -96,72 +96,150 @@ def gen_index_cases(ctx, scale):
             cases.append('cnx %d %d %d' % (L, s2, j2))
     return cases
 
-HIST_L = {'sq': [0, 1, 2, 3, 4], 'cn': [0, 1, 2, 3, 5]}
+HIST_L = {'sq': [0, 0, 1, 2, 3, 3, 4, 6, 8], 'cn': [0, 1, 2, 3, 5, 5, 6, 8], 'sqw': [0, 3, 5], 'cnw': [0, 3, 5]}
+SIZE_MAX = M64 - 1
 
 def gen_hist_cases(ctx, scale):
     r = ctx.rng; cases = []
-    def one_history(F, L, limit, nops):
-        bnd = boundaries(F, L, limit * 2)
+    def one_history(F, L, limit, nops, allow_replace=True):
+        bnd = boundaries(F[:2], L, limit * 2)
         def near():
             b = r.choice(bnd); return max(0, b + r.choice([-2, -1, 0, 0, 1, 2]))
         cnt = 0; ops = []
         for _ in range(nops):
             t = r.below(100)
-            if t < 30:
+            if t < 28:      # AddBack(Item&&) / AddBack(const Item&)
                 k = r.choice([1, 1, 2, 3, r.range(1, 40), max(1, near() - cnt)]); k = min(k, max(1, limit - cnt))
-                ops.append('a%d' % k); cnt += k
-            elif t < 45:
-                ops.append('r%d' % r.choice([near(), cnt + r.below(50), r.below(limit)]))
-            elif t < 57:
-                c = r.choice([near(), r.below(limit), cnt + r.below(30)]); c = min(c, limit)
-                ops.append('s%d' % c); cnt = c
-            elif t < 64:
+                ops.append('%s%d' % (r.choice('aaae'), k)); cnt += k
+            elif t < 42:    # Reserve incl. 0, 1, capacity boundaries +-
+                ops.append('r%d' % r.choice([near(), cnt + r.below(50), r.below(limit), 0, 1]))
+            elif t < 54:    # SetCount(count) / SetCount(count, item) incl. 0, 1, count, boundaries
+                c = r.choice([near(), r.below(limit), cnt + r.below(30), 0, 1, cnt]); c = min(c, limit)
+                ops.append('%s%d' % (r.choice('ssS'), c)); cnt = c
+            elif t < 60:
                 ops.append('k')
-            elif t < 72:
-                ops.append('K%d' % r.choice([near(), r.below(limit), 0]))
-            elif t < 82:
-                k = r.choice([1, 1, 2, r.below(cnt + 1), max(0, cnt - near())]); k = min(k, cnt)
+            elif t < 68:    # Shrink(capacity) incl. 0, count-1, count, count+1, SIZE_MAX
+                ops.append('K%d' % r.choice([near(), r.below(limit), 0, max(0, cnt - 1), cnt, cnt + 1, SIZE_MAX]))
+            elif t < 77:    # RemoveBack incl. 0, 1, count
+                k = r.choice([1, 1, 2, 0, cnt, r.below(cnt + 1), max(0, cnt - near())]); k = min(k, cnt)
                 ops.append('b%d' % k); cnt -= k
-            elif t < 85:
+            elif t < 80:
                 ops.append('c'); cnt = 0
-            elif t < 88:
+            elif t < 83:
                 ops.append('C'); cnt = 0
-            elif t < 91:
+            elif t < 86:    # Insert(index, Item&&) / Insert(index, const Item&) incl. index 0 and index == count
                 if cnt < limit:
-                    ops.append('i%d' % r.below(cnt + 1)); cnt += 1
-            elif t < 94:
+                    ops.append('%s%d' % (r.choice('ij'), r.choice([0, cnt, r.below(cnt + 1)]))); cnt += 1
+            elif t < 88:
                 if cnt > 0:
-                    ops.append('d%d' % r.below(cnt)); cnt -= 1
-            elif t < 96:     # Insert(index, n copies) / Insert(index, begin, end): both branches of ArrayShifter::InsertNogrow
-                m = r.choice([0, 1, 2, r.range(1, 40), max(0, near() - cnt)]); m = min(m, max(0, limit - cnt))
-                ops.append('%s%d:%d' % (r.choice('IJ'), r.choice([0, cnt, r.below(cnt + 1), max(0, cnt - r.below(m + 2))]), m)); cnt += m
-            elif t < 98:
-                pidx = r.below(cnt + 1); m = min(r.choice([0, 1, r.below(cnt - pidx + 1), cnt - pidx]), cnt - pidx)
+                    ops.append('d%d' % r.choice([0, cnt - 1, r.below(cnt)])); cnt -= 1
+            elif t < 92:    # Insert(index, n, item) / (index, fwd range) / (index, single-pass range) / (index, {a,b,c}): both InsertNogrow branches
+                kind = r.choice('IIJJUL')
+                m = 3 if kind == 'L' else r.choice([0, 1, 2, r.range(1, 40), max(0, near() - cnt)])
+                m = min(m, 25) if kind == 'U' else m
+                if cnt + m <= limit:
+                    ops.append(('L%d' % r.choice([0, cnt, r.below(cnt + 1)])) if kind == 'L' else
+                               '%s%d:%d' % (kind, r.choice([0, cnt, r.below(cnt + 1), max(0, cnt - r.below(m + 2))]), m)); cnt += m
+            elif t < 94:    # Remove(index, n) incl. n = 0, whole tail, whole array
+                pidx = r.choice([0, cnt, r.below(cnt + 1)]); m = min(r.choice([0, 1, r.below(cnt - pidx + 1), cnt - pidx]), cnt - pidx)
                 ops.append('D%d:%d' % (pidx, m)); cnt -= m
+            elif t < 96:    # AddBackNogrow(Item&&) / (const Item&): only when there is room (harness and model share the guard)
+                ops.append(r.choice('no'))   # the generator's count stays a lower bound (later arguments remain valid; SetCount re-synchronises)
+            elif t < 98 and allow_replace:   # the array is replaced by a newly constructed one
+                kind = r.choice('GHRTPQ'); c = r.choice([0, 1, near(), r.below(min(limit, 400) + 1)]); c = min(c, limit)
+                if kind == 'T': ops.append('T'); cnt = 3
+                elif kind == 'P': ops.append('P%d' % c); cnt = 0
+                else: ops.append('%s%d' % (kind, c)); cnt = c
             else:
-                ops.append(None)   # filter-Remove: the count afterwards depends on the values; stop generating count-dependent ops
+                ops.append(None)   # filter-Remove: the count afterwards depends on the values
                 break
         if ops and ops[-1] is None:
             ops[-1] = 'F%d' % r.choice([2, 3, 5, 7]); ops += ['a%d' % r.range(1, 30), 'k']
         return ops, cnt
-    for n in range(260 * scale):
-        F = r.choice(['sq', 'cn']); L = r.choice(HIST_L[F])
-        limit = r.choice([40, 200, 1500, 6000]) if L <= 2 or F == 'cn' else r.choice([200, 1500, 6000])
+    for n in range(280 * scale):
+        F = r.choice(['sq', 'sq', 'cn', 'cn', 'sqw', 'cnw']); L = r.choice(HIST_L[F])
+        limit = r.choice([40, 200, 1500, 6000]) if L <= 2 else r.choice([200, 1500, 6000])
+        if L >= 6: limit = r.choice([6 * 2 ** L, 6000, 12000])
         ops, _ = one_history(F, L, limit, r.range(6, 36))
         cases.append('hist %s %d %s' % (F, L, ' '.join(ops)))
+    if scale > 1:   # thorough only: the large initial segment sizes named by the property (logInitialItemCount up to 16)
+        for L, lim in ((12, 40000), (16, 400000)):
+            for F in ('sq', 'cn'):
+                for _ in range(6):
+                    ops, _ = one_history(F, L, lim, r.range(6, 16), allow_replace=False)
+                    cases.append('hist %s %d %s' % (F, L, ' '.join(ops)))
     # two arrays: ops on either, move / swap / copy between them
     for n in range(90 * scale):
-        F = r.choice(['sq', 'cn']); L = r.choice([0, 1, 2, 3, 5]); limit = r.choice([40, 300, 2000])
+        F = r.choice(['sq', 'cn', 'sq', 'cn', 'sqw', 'cnw']); L = r.choice([0, 1, 2, 3, 5] if len(F) == 2 else [0, 3, 5]); limit = r.choice([40, 300, 2000])
         toks = []
         for _ in range(r.range(3, 9)):
             which = r.choice('AB')
             ops, _ = one_history(F, L, limit, r.range(1, 5))
             toks += ['%s.%s' % (which, o) for o in ops if o[0] not in 'F']
             toks.append(r.choice(['mAB', 'mBA', 'MAB', 'MBA', 'xAB', 'cAB', 'cBA', 'kAB', 'kBA']))
-            # the generator does not track counts across world ops: restart each array's script from a known state
             toks += ['A.s%d' % r.below(limit), 'B.s%d' % r.below(limit)] if r.chance(1, 3) else []
         cases.append('hist2 %s %d %s' % (F, L, ' '.join(toks)))
     return cases
+
+# ------------------------------------------------------------------ measured coverage of the histories (from the real code's outputs)
+CLASS_STARTS = [1, 4, 10, 22, 46, 94, 190, 382]     # sqrt: first segment of each size class
+def measure_histories(cases, lines):
+    per = {}; ev = {'segments_added': 0, 'segments_removed': 0, 'sqrt_size_class_crossings_up': 0, 'sqrt_size_class_crossings_down': 0,
+                    'insert_shift_branch(index+count<initCount)': 0, 'insert_tail_branch': 0, 'insert_at_count': 0, 'insert_at_0': 0,
+                    'remove_whole_tail': 0, 'zero_count_insert_or_remove': 0, 'shrink_SIZE_MAX': 0, 'arg_0': 0, 'arg_1': 0,
+                    'world_ops_nonempty_source': 0, 'addbacknogrow_taken': 0, 'addbacknogrow_full': 0, 'replaced_by_new_array': 0}
+    for c, out in zip(cases, lines):
+        w = c.split()
+        if w[0] not in ('hist', 'hist2') or 'FAIL' in out or out == '<missing>': continue
+        key = '%s %s L=%s' % (w[0], w[1], w[2]); d = per.setdefault(key, {'histories': 0, 'ops': 0, 'max_count': 0, 'max_segments': 0, 'grew_while_nonempty': 0})
+        d['histories'] += 1
+        toks = out.split(); ops = w[3:]
+        prev = {'A': (0, 0), 'B': (0, 0)}
+        for o, tk in zip(ops, toks):
+            d['ops'] += 1
+            parts = tk.split('|') if '|' in tk else [tk]
+            cur = {}
+            for nm, pt in zip('AB', parts):
+                f = pt.split('/'); cur[nm] = (int(f[0]), int(f[1]))
+            tgt = o[0] if (len(o) > 2 and o[1] == '.') else 'A'
+            op = o[2:] if (len(o) > 2 and o[1] == '.') else o
+            if w[0] == 'hist2' and not (len(o) > 2 and o[1] == '.'):
+                src = o[1]
+                if prev[src][0] > 0: ev['world_ops_nonempty_source'] += 1
+            else:
+                (pc, ps), (nc, ns) = prev[tgt], cur[tgt]
+                if ns > ps:
+                    ev['segments_added'] += ns - ps
+                    if pc > 0: d['grew_while_nonempty'] += 1
+                    if w[1].startswith('sq'): ev['sqrt_size_class_crossings_up'] += sum(1 for b in CLASS_STARTS if ps <= b < ns)
+                if ns < ps:
+                    ev['segments_removed'] += ps - ns
+                    if w[1].startswith('sq'): ev['sqrt_size_class_crossings_down'] += sum(1 for b in CLASS_STARTS if ns <= b < ps)
+                k = op[0]; arg = op[1:]
+                if k in 'IJUL' and ':' in arg or k == 'L':
+                    p_, m_ = (int(arg), 3) if k == 'L' else map(int, arg.split(':'))
+                    if p_ <= pc:
+                        if m_ == 0: ev['zero_count_insert_or_remove'] += 1
+                        elif p_ + m_ < pc: ev['insert_shift_branch(index+count<initCount)'] += 1
+                        else: ev['insert_tail_branch'] += 1
+                        if p_ == pc: ev['insert_at_count'] += 1
+                        if p_ == 0: ev['insert_at_0'] += 1
+                elif k in 'ij' and arg:
+                    if int(arg) == pc: ev['insert_at_count'] += 1
+                    if int(arg) == 0: ev['insert_at_0'] += 1
+                elif k == 'D':
+                    p_, m_ = map(int, arg.split(':'))
+                    if m_ == 0: ev['zero_count_insert_or_remove'] += 1
+                    elif p_ + m_ == pc: ev['remove_whole_tail'] += 1
+                elif k == 'K' and arg and int(arg) == SIZE_MAX: ev['shrink_SIZE_MAX'] += 1
+                elif k in 'no': ev['addbacknogrow_taken' if nc == pc + 1 else 'addbacknogrow_full'] += 1
+                elif k in 'GHRTPQ': ev['replaced_by_new_array'] += 1
+                if k in 'rsSKb' and arg == '0': ev['arg_0'] += 1
+                if k in 'rsSKb' and arg == '1': ev['arg_1'] += 1
+            for nm in cur:
+                d['max_count'] = max(d['max_count'], cur[nm][0]); d['max_segments'] = max(d['max_segments'], cur[nm][1])
+            prev.update(cur)
+    return per, ev
 
 # ------------------------------------------------------------------ the property predicate on the real code's outputs
 def oracle(ctx, cases, lines):
@@ -244,6 +322,17 @@ def oracle(ctx, cases, lines):
         except (ValueError, IndexError):
             bad.append((c, out[:200], 'unparsable implementation output'))
     return bad
+
+def index_cases_per_L(icases):
+    d = {}
+    for c in icases:
+        w = c.split()
+        if w[0] in ('sq', 'cn', 'sqs', 'sqr', 'cnr', 'sqx', 'cnx'):
+            k = '%s L=%s' % (w[0][:2], w[1]); n = int(w[3]) if w[0][2:] == 'r' else 1
+            e = d.setdefault(k, {'indexes': 0, 'max_index_log2': 0}); e['indexes'] += n
+            hi = (int(w[2]) + n - 1) if w[0][2:] != 'x' else 0
+            e['max_index_log2'] = max(e['max_index_log2'], hi.bit_length())
+    return d
 
 def shrink_hist(ctx, harness, case):
     """ddmin on the op list of a failing history"""
@@ -352,7 +441,7 @@ def run(ctx):
         ctx.violation(why, {'case': c, 'impl_output': out, 'cmd': 'echo "%s" | build/C16/harness' % c}, found_input=True)
     for c in (icases[::max(1, len(icases) // 3)][:3] + hcases[:3]):
         ctx.add_sample(c[:300])
-    kinds = ('lg64', 'lg32', 'sqr', 'cnr', 'sqs', 'sqx', 'cnx', 'sq ', 'cn ', 'hist sq', 'hist cn', 'hist2 sq', 'hist2 cn')
+    kinds = ('lg64', 'lg32', 'sqr', 'cnr', 'sqs', 'sqx', 'cnx', 'sq ', 'cn ', 'hist sq ', 'hist cn ', 'hist sqw', 'hist cnw', 'hist2 sq ', 'hist2 cn ', 'hist2 sqw', 'hist2 cnw')
     ctx.coverage['input_distribution'] = {k.strip(): sum(1 for c in cases if c.startswith(k)) for k in kinds}
     ops = {}
     for c in hcases:
@@ -360,6 +449,10 @@ def run(ctx):
             k = o[2] if (len(o) > 2 and o[1] == '.') else (o[0] + o[0] if len(o) == 3 and o[1] in 'AB' else o[0])
             ops[k] = ops.get(k, 0) + 1
     ctx.coverage['history_op_histogram'] = ops
+    per, ev = measure_histories(cases, lines)
+    ctx.coverage['input_distribution']['histories_per_configuration(measured)'] = per
+    ctx.coverage['input_distribution']['history_events(measured)'] = ev
+    ctx.coverage['input_distribution']['index_cases_per_L'] = index_cases_per_L(icases)
     ctx.coverage['histories_with_growth_while_nonempty'] = sum(1 for c in ctx.nontrivial if c.startswith('hist'))
     return ctx.finish(rule=RULE)
 
